@@ -67,8 +67,10 @@ inductive Truth where
   | received (status : Nat)
   /-- a response head with this status was delivered, then the body broke off -/
   | bodyBroken (status : Nat)
-  /-- no response was delivered (refused, reset, closed, silent, garbage) -/
+  /-- no response was delivered (refused, reset, closed, garbage) -/
   | failed
+  /-- the target stayed silent and the client's response-header timeout expired -/
+  | timedOut
   deriving Repr, DecidableEq, Inhabited
 
 structure Obs where
@@ -96,6 +98,10 @@ def judgeHttp (expTag : String) (t : Truth) (obs : List Obs) : String :=
         else "ok"
       | .failed =>
         if o.net = 0 then "fail:net:exchange failed but net code 0" else "ok"
+      | .timedOut =>
+        if o.net = 0 then "fail:net:exchange failed but net code 0"
+        else if o.net ≠ 110 then s!"fail:net:timeout reported with net code {o.net}, not 110"
+        else "ok"
 
 /-! ### scenarios -/
 
